@@ -27,6 +27,8 @@ type twoChain struct {
 	opts     tcOpts
 	// neighbours: ids of the other bridges on the same L1 (created before or after ours)
 	neighbours []uint64
+	info       opchildtypes.BridgeInfo
+	infoSet    bool
 	users      []henv.User // same keys on both chains (same bech32 prefix)
 	executors  []henv.User
 	admin      henv.User
@@ -58,6 +60,8 @@ type tcOpts struct {
 	fromGenesis bool
 	// otherAfter: number of bridges created after ours (neighbours with a higher id)
 	otherAfter int
+	// lateBridgeInfo: the L2 does not know its bridge yet; registerBridgeInfo is called during the history
+	lateBridgeInfo bool
 }
 
 func newTwoChain(o tcOpts) *twoChain {
@@ -101,9 +105,9 @@ func newTwoChain(o tcOpts) *twoChain {
 		tc.neighbours = append(tc.neighbours, r.Resp.(*ophosttypes.MsgCreateBridgeResponse).BridgeId)
 	}
 	cfg := henv.DefaultBridgeConfig(tc.proposer.Str, tc.chal.Str, tc.period)
-	info := opchildtypes.BridgeInfo{BridgeId: tc.bridgeID, BridgeAddr: ophosttypes.BridgeAddress(tc.bridgeID).String(), L1ChainId: "l1-chain", L1ClientId: "07-tendermint-0", BridgeConfig: cfg}
-	if r := tc.l2.Deliver(opchildtypes.NewMsgSetBridgeInfo(tc.executors[0].Str, info)); !r.OK() {
-		panic(r.Err)
+	tc.info = opchildtypes.BridgeInfo{BridgeId: tc.bridgeID, BridgeAddr: ophosttypes.BridgeAddress(tc.bridgeID).String(), L1ChainId: "l1-chain", L1ClientId: "07-tendermint-0", BridgeConfig: cfg}
+	if !o.lateBridgeInfo {
+		tc.registerBridgeInfo()
 	}
 	for _, u := range tc.users {
 		tc.l1.Fund(u.Addr, coinOf("uinit", 1_000_000_000), coinOf("uusdc", 1_000_000_000))
@@ -267,4 +271,16 @@ func (tc *twoChain) neighbourChallenge(id uint64, from uint64) string {
 	}
 	r := tc.l1.Deliver(ophosttypes.NewMsgDeleteOutput(tc.chal.Str, id, idx))
 	return fmt.Sprintf("neighbour bridge %d: outputs %d,%d proposed, delete from %d -> %v", id, next, next+1, idx, r.Err)
+}
+
+// registerBridgeInfo is the executor's first MsgSetBridgeInfo (binding the L2 to its bridge).
+func (tc *twoChain) registerBridgeInfo() {
+	if tc.infoSet {
+		return
+	}
+	if r := tc.l2.Deliver(opchildtypes.NewMsgSetBridgeInfo(tc.executors[0].Str, tc.info)); !r.OK() {
+		panic(r.Err)
+	}
+	tc.infoSet = true
+	tc.logf("bridge info registered on L2")
 }
